@@ -285,6 +285,28 @@ static void c04(void) {
   coap_delete_pdu(pdu);
 }
 
+/* resize <alloc_size> <max_size> <size>: a PDU with that alloc_size (<= max_size unless unlimited),
+ * then coap_pdu_check_resize(size) */
+static void resize_cmd(void) {
+  size_t alloc, mx, sz;
+  coap_pdu_t *pdu;
+  int r;
+  if (vntok < 4) { puts("ERROR resize args"); return; }
+  alloc = (size_t)atol(vtok[1]);
+  mx = (size_t)atol(vtok[2]);
+  sz = (size_t)atol(vtok[3]);
+  pdu = coap_pdu_init(0, 0, 0, mx);
+  if (!pdu) { puts("NOPDU"); return; }
+  if (!coap_pdu_resize(pdu, alloc) || pdu->alloc_size != alloc) {
+    puts("NOALLOC");
+    coap_delete_pdu(pdu);
+    return;
+  }
+  r = coap_pdu_check_resize(pdu, sz);
+  printf("%d %zu\n", r ? 1 : 0, pdu->alloc_size);
+  coap_delete_pdu(pdu);
+}
+
 int main(void) {
   coap_address_t dst;
   coap_startup();
@@ -298,6 +320,7 @@ int main(void) {
   while (next_case(stdin)) {
     if (vntok == 0) { puts(""); continue; }
     if (!strcmp(vtok[0], "c04") || !strcmp(vtok[0], "c04x")) c04();
+    else if (!strcmp(vtok[0], "resize")) resize_cmd();
     else puts("ERROR unknown command");
     fflush(stdout);
   }
